@@ -377,6 +377,15 @@ def axioms(ex):
         f = smt.attr_func(a)
         ax.append(z3.ForAll([o], Region(f(o)) == i + 1, patterns=[f(o)]))
     ex.model.used.add("separation: containers held in fields %s are pairwise distinct objects" % ", ".join(REGION_ATTRS))
+    # declared attribute types as facts: an attribute declared `str` on class C holds a string on every instance of C
+    # (part of assumption A2 "declared attribute types"; stated as axioms so that spec-level reads can use them too)
+    for cname, c in CLASSES.items():
+        if cname not in smt._inst_preds:
+            continue
+        for attr, ty in c.get("attrs", {}).items():
+            if ty == STR and attr in smt._attr_funcs:
+                f = smt.attr_func(attr)
+                ax.append(z3.ForAll([o], z3.Implies(smt.inst_pred(cname)(o), smt.is_str(f(o))), patterns=[f(o)]))
     p = z3.Const("rg_p", smt.V)
     for a in PRIVATE_ATTRS:
         if a not in smt._attr_funcs:
